@@ -4,16 +4,19 @@
 # reverts. Any violation or checker error is a false alarm (or an over-tight floor/anchor) to triage.
 export GOFLAGS=-mod=mod GOPROXY=off GOSUMDB=off GOTOOLCHAIN=local; unset GOWORK
 DIR=$1; OUT=${2:-/tmp/benign_result.md}
+# BENIGN_REPO / BENIGN_BIN: run against a scratch worktree with a development binary instead
+R=${BENIGN_REPO:-/repo}; BIN=${BENIGN_BIN:-bin/idenalint}
+[ "$R" != /repo ] && export VERIF_REPO=$R
 cd /verif
-[ -n "$(git -C /repo status --porcelain)" ] && { echo "/repo not clean"; exit 2; }
+[ -n "$(git -C $R status --porcelain)" ] && { echo "$R not clean"; exit 2; }
 echo "| patch | applies | exit | alarms |" > $OUT; echo "|---|---|---|---|" >> $OUT
 for d in $(ls $DIR/*.diff | sort); do
   n=$(basename $d .diff)
-  if ! git -C /repo apply --whitespace=nowarn $d 2>/dev/null; then echo "| $n | no | - | - |" >> $OUT; continue; fi
-  res=$(VERIF_NO_EVIDENCE=1 bin/idenalint -prop all -tier quick 2>&1); ex=$?
+  if ! git -C $R apply --whitespace=nowarn $d 2>/dev/null; then echo "| $n | no | - | - |" >> $OUT; continue; fi
+  res=$(VERIF_NO_EVIDENCE=1 $BIN -prop all -tier quick 2>&1); ex=$?
   al=$(echo "$res" | grep -E "^\s+violated |CHECKER-ERROR" | cut -c1-230 | tr '\n' ';' | sed 's/|/\\|/g')
   echo "| $n | yes | $ex | ${al:-—} |" >> $OUT
-  git -C /repo checkout -- . ; git -C /repo clean -fdq -- . 2>/dev/null
+  git -C $R checkout -- . ; git -C $R clean -fdq -- . 2>/dev/null
 done
-git -C /repo status --short
+git -C $R status --short
 grep -v "| 0 | — |" $OUT
